@@ -253,7 +253,7 @@ pub fn run(a: &Args) {
             initial = vec![ready(&mut rng, "gs-a", "10.0.0.1"), ready(&mut rng, "gs-b", "10.1.2.3")];
             evs = vec![Ev::RelistEmpty(vec![]), Ev::Add(ready(&mut rng, "gs-d", "10.0.0.1"))];
         }
-        let st = Arc::new(Mutex::new(MockState { list: initial.clone(), rv: 100, watch_tx: None, lists_served: 0, page1: None, failed_served: 0, fail_next: 0 }));
+        let st = Arc::new(Mutex::new(MockState { list: initial.clone(), rv: 7, watch_tx: None, lists_served: 0, page1: None, failed_served: 0, fail_next: 0 }));
         let kubeconfig = dir.join(format!("kc-{n}.yaml"));
         let (observed, model_evs, oracle) = rt.block_on(async {
             let listener = tokio::net::TcpListener::bind("127.0.0.1:0").await.unwrap();
